@@ -202,3 +202,51 @@ Proof. vm_compute. repeat split; reflexivity. Qed.
 
 Example ex_mode_history : conformant_history (firstn 9 ex_history ++ [nth 9 ex_history (ex_srv "" [])]) = true.
 Proof. vm_compute. reflexivity. Qed.
+
+(* ---- why `conformant` carries its consistency clauses: four histories a server may well
+   send, each conformant up to its last message, after which the implementation's state is
+   NOT the literal reading of the history (see notes/design/C04.md, assumptions A1-A4) ---- *)
+
+Definition ex_cfg04 := mkConfig (bs "me") (bs "user").
+Definition ex_tagged (e : event) (a : string) : event := mkEvent (e_src e) (Some (bs a)) (e_cmd e) (e_params e).
+Definition user_view (r : ref) (n : string) := option_map (fun u => (ru_ident u, ru_host u, ru_account u)) (v_lookup_user r (bs n)).
+Definition run_abs (h : list event) : option ref :=
+  match run ex_cfg04 state_init h with Ok (s, _) => Some (abs s) | Panic => None end.
+
+(* A1: a user known from a plain NAMES line joins another channel: the prefix of the JOIN is not recorded *)
+Definition beyond_A1 : list event := [
+  ex_srv "001" ["me"; "Welcome"]; ex_usr "me" "JOIN" ["#a"]; ex_srv "353" ["me"; "="; "#a"; "me alice"];
+  ex_usr "me" "JOIN" ["#b"]; ex_srv "353" ["me"; "="; "#b"; "me"]; ex_usr "alice" "JOIN" ["#b"] ].
+Example beyond_A1_deviates :
+  conformant_history (removelast beyond_A1) = true /\ conformant_history beyond_A1 = false /\
+  option_map (fun r => user_view r "alice") (run_abs beyond_A1) = Some (Some ([], [], [])) /\
+  user_view (told_run beyond_A1) "alice" = Some (bs "~u", bs "h.example", []).
+Proof. vm_compute. repeat split; reflexivity. Qed.
+
+(* A2: extended-join shows "*" for a user known as logged in: the account is kept *)
+Definition beyond_A2 : list event := [
+  ex_srv "001" ["me"; "Welcome"]; ex_usr "me" "JOIN" ["#a"]; ex_usr "me" "JOIN" ["#b"];
+  ex_usr "alice" "JOIN" ["#a"; "acct"; "Alice"]; ex_usr "alice" "JOIN" ["#b"; "*"; "Alice"] ].
+Example beyond_A2_deviates :
+  conformant_history (removelast beyond_A2) = true /\ conformant_history beyond_A2 = false /\
+  option_map (fun r => user_view r "alice") (run_abs beyond_A2) = Some (Some (bs "~u", bs "h.example", bs "acct")) /\
+  user_view (told_run beyond_A2) "alice" = Some (bs "~u", bs "h.example", []).
+Proof. vm_compute. repeat split; reflexivity. Qed.
+
+(* A3: an account tag on the JOIN of somebody new, without extended-join: the account is lost *)
+Definition beyond_A3 : list event := [
+  ex_srv "001" ["me"; "Welcome"]; ex_usr "me" "JOIN" ["#a"]; ex_tagged (ex_usr "alice" "JOIN" ["#a"]) "acct" ].
+Example beyond_A3_deviates :
+  conformant_history (removelast beyond_A3) = true /\ conformant_history beyond_A3 = false /\
+  option_map (fun r => user_view r "alice") (run_abs beyond_A3) = Some (Some (bs "~u", bs "h.example", [])) /\
+  user_view (told_run beyond_A3) "alice" = Some (bs "~u", bs "h.example", bs "acct").
+Proof. vm_compute. repeat split; reflexivity. Qed.
+
+(* A4: an ISUPPORT token with an empty value is stored under the key "SILENCE=" *)
+Definition beyond_A4 : list event := [
+  ex_srv "001" ["me"; "Welcome"]; ex_srv "005" ["me"; "SILENCE="; "NETWORK=Test"; "are supported by this server"] ].
+Example beyond_A4_deviates :
+  conformant_history (removelast beyond_A4) = true /\ conformant_history beyond_A4 = false /\
+  option_map (fun r => (v_option r (bs "SILENCE"), v_option r (bs "SILENCE="))) (run_abs beyond_A4) = Some (None, Some []) /\
+  (v_option (told_run beyond_A4) (bs "SILENCE"), v_option (told_run beyond_A4) (bs "SILENCE=")) = (Some [], None).
+Proof. vm_compute. repeat split; reflexivity. Qed.
